@@ -24,7 +24,7 @@ pub struct Case {
     pub field: String,
     /// the JSON fragment written for the field ("<absent>" when the key is left out)
     pub fragment: String,
-    /// wellformed | malformed | literal | unspecified
+    /// wellformed | lenient | malformed | literal | unspecified
     pub class: String,
     pub label: String,
 }
@@ -110,6 +110,14 @@ fn judge(c: &Case, cls: &mut Classifier) -> Verdict {
                         return fail_known(k, "the integer written", "its f64 rounding", format!("well-formed number mis-valued; {where_}"));
                     }
                     return fail(hex_lower(&c.model.digest()), hex_lower(&o.0), format!("digest/encoding differs from the reference encoding of the integer written; {where_}"));
+                }
+            }
+        },
+        "lenient" => match &obs {
+            Err(_) => cls.unspecified(&format!("{}-refused", c.label)),
+            Ok(o) => {
+                if !matches_model(o, &c.model) {
+                    return fail(hex_lower(&c.model.digest()), hex_lower(&o.0), format!("non-canonical but legal spelling accepted with another value; {where_}"));
                 }
             }
         },
@@ -307,7 +315,9 @@ fn gen_case(tape: Vec<u8>) -> Case {
                 }
             }
             let (s, l) = out.unwrap();
-            (s, "wellformed", l)
+            // redundant leading zeros are a legal but non-canonical spelling: exact if accepted, refusal allowed
+            let class = if l == "DecStringLeadingZeros" || l == "HexLeadingZeros" { "lenient" } else { "wellformed" };
+            (s, class, l)
         }
         5..=7 => {
             let (f, l) = malformed_fragment(&mut u, &x);
@@ -333,7 +343,7 @@ fn gen_case(tape: Vec<u8>) -> Case {
             (f, "unspecified", l.to_string())
         }
     };
-    if class == "wellformed" {
+    if class == "wellformed" || class == "lenient" {
         set_field(&mut model, field, x);
     }
     let doc = render(&model, shape, &to_form, field, &fragment, &mut u);
